@@ -483,7 +483,12 @@ func (r *run) runMC(st mcStage) {
 	}
 	info["exhaustive"] = true
 	if st.Coverage && r.tier == "thorough" {
-		sc := bufio.NewScanner(strings.NewReader(o.out))
+		// only the final coverage dump counts (interim dumps list actions not reached YET)
+		covOut := o.out
+		if i := strings.LastIndex(covOut, "The coverage statistics at"); i >= 0 {
+			covOut = covOut[i:]
+		}
+		sc := bufio.NewScanner(strings.NewReader(covOut))
 		for sc.Scan() {
 			if m := reCovZero.FindStringSubmatch(sc.Text()); m != nil {
 				r.actionsNever = append(r.actionsNever, m[1])
